@@ -1,6 +1,6 @@
 """Which units decide which property (DESIGN.md sections 1, 5)."""
 
-VERUS_UNITS = ['U-FMT', 'U-REACH', 'U-COMPACTAS', 'U-SANITY', 'U-RESOLVE', 'U-CONTAINS', 'U-CALLS', 'U-DESCR', 'U-DERIVES', 'U-MIXED', 'U-BUILDERS', 'U-SUBST']
+VERUS_UNITS = ['U-FMT', 'U-REACH', 'U-COMPACTAS', 'U-SANITY', 'U-RESOLVE', 'U-CONTAINS', 'U-CALLS', 'U-DESCR', 'U-DERIVES', 'U-MIXED', 'U-BUILDERS', 'U-SUBST', 'U-VALIDATE']
 
 PROPS = {
     'C15': {
@@ -82,15 +82,16 @@ PROPS = {
     },
     'C11': {
         'level': 'proof',
-        'verus': ['U-CONTAINS'],
+        'verus': ['U-CONTAINS', 'U-VALIDATE'],
         'kani': ['contains_type_path_catalogue', 'contains_type_path_catalogue2', 'contains_type_path_n1'],
         'trusted_base': ['Verus 0.2026.09.13, Z3, rustc 1.98.1'],
         'assumptions': [
             'ASSUMED std contracts: Vec<T> == [U] (length + pairwise), String == String (contents), slice.iter().any(f) (exists) -- vx/prelude/std_any_eq.rs',
+            'ASSUMED std contracts (vx/prelude/validate_shim.rs): HashMap::iter() yields every entry, chain() concatenates, next() walks front to back; iter_mut().find(f) = first entry on which f holds (as &mut); HashSet::extend(s.iter().cloned()) = union, is_empty = no element, clone = identity; derived Default of SettingsValidationError = three empty vectors; syn::Path == is equality of the opaque values; path_segments / path_segments_to_syn_path opaque (panics of the latter not covered); syn::TypePath modelled by its `path` field',
         ],
         'not_covered': [
-            'the validation loop (validate_substitutes_and_derives_against_registry lines 16-72: keys are syn::Path, accumulators are Vec<(syn::Path, HashSet<..>)>)',
-            'similar_type_paths_in_registry (syn::Path in and out)',
+            'similar_type_paths_in_registry (third sentence of C11: inspects syn::Path, filter_map / collect)',
+            'panics inside path_segments_to_syn_path (empty or non-identifier substitute key)',
         ],
     },
     'C18': {
